@@ -7,7 +7,8 @@ import json
 
 ALL_FEATURES = ["group_relevant", "group_appearance", "repeat_count", "repeat_relevant", "choice_extra", "choice_media", "parameters", "translations", "question_media",
                 "constraint_msg", "guidance", "dyn_default", "trigger", "or_other", "instance_attr", "settings", "entity", "external_instance", "audit", "table_list",
-                "last_saved", "namespaces"]
+                "last_saved", "namespaces", "search", "osm", "rank_and_multi", "from_file", "external_select", "select_from_repeat", "background_geopoint",
+                "range_decimal", "note_editable", "explicit_bind_type"]
 
 
 def build(feats):
@@ -84,6 +85,31 @@ def build(feats):
               {"type": "select_one L", "name": "t2", "label": "T2"}, {"type": "end group"}]
     if "last_saved" in F:
         q.append({"type": "text", "name": "ls", "label": "LS", "default": "${last-saved#q1}"})
+    if "search" in F:
+        choices.append({"list_name": "SL", "name": "sl1", "label": "SL1"})
+        q.append({"type": "select_one SL", "name": "srch", "label": "Search", "appearance": "search('mfile')"})
+    if "osm" in F:
+        q.append({"type": "osm building_tags", "name": "osmq", "label": "OSM"})
+        extra.append({"name": "osm", "header": ["list_name", "name", "label"], "rows": [["building_tags", "building", "Building"], ["building_tags", "roof", "Roof"]]})
+    if "rank_and_multi" in F:
+        q.append({"type": "rank L", "name": "rk", "label": "RK"})
+        q.append({"type": "select_multiple L", "name": "mu", "label": "MU", "appearance": "minimal"})
+    if "from_file" in F:
+        q.append({"type": "select_one_from_file ff.csv", "name": "ffq", "label": "FF", "parameters": "value=v label=l"})
+        q.append({"type": "select_multiple_from_file fg.geojson", "name": "fgq", "label": "FG"})
+    if "external_select" in F:
+        q.append({"type": "select_one_external X", "name": "exq", "label": "EX", "choice_filter": "state=${q1}"})
+        extra.append({"name": "external_choices", "header": ["list_name", "name", "label", "state"], "rows": [["X", "x1", "X1", "s1"]]})
+    if "select_from_repeat" in F:
+        q.append({"type": "select_one ${q4}", "name": "sfr", "label": "SFR"})
+    if "background_geopoint" in F:
+        q.append({"type": "background-geopoint", "name": "bgp", "trigger": "${q1}"})
+    if "range_decimal" in F:
+        q.append({"type": "range", "name": "rgd", "label": "RGD", "parameters": "start=0.5 end=5.5 step=0.5"})
+    if "note_editable" in F:
+        q.append({"type": "note", "name": "nte", "label": "NTE", "read_only": "no"})
+    if "explicit_bind_type" in F:
+        q.append({"type": "text", "name": "ebt", "label": "EBT", "bind::type": "int"})
     cols = []
     for r in q:
         for k in r:
